@@ -187,6 +187,10 @@ func runC16(c *Ctx) {
 					if vIs(resultOf(s, 0))(errOperand(ret)) && dominates(decClose, s) {
 						okFinal = true
 					}
+					// `if err := f.Sync(); err != nil { return err }; return nil`
+					if g, k := guardedBy(ret, cmpFact(vIs(resultOf(s, 0)), token.EQL, vNil(), "")); k > 0 && g && dominates(decClose, s) {
+						okFinal = true
+					}
 				}
 			}
 			c.check(okFinal, rule, fnName(fn)+": success = result of a final f.Sync issued after the checksum check", c.P.Pos(fn.Pos()), "return f.Sync()", "the applied pages are not synced before success is reported")
@@ -507,6 +511,11 @@ func c16Contiguous(c *Ctx) {
 				if st.Block().Parent() != fn {
 					continue
 				}
+				// copying the variable into another cell (a result spilled because of a defer)
+				// is not the assignment of info.MaxTXID
+				if u, isU := st.Val.(*ssa.UnOp); isU && u.Op == token.MUL && cellOf(u.X) != nil && cellOf(u.X) != ssa.Value(st.Addr.(*ssa.Alloc)) {
+					continue
+				}
 				if !reachable(fn, ap.Block(), nil)[st.Block()] && st.Block() != ap.Block() {
 					// store before the apply (in program order) — still must be guarded
 				}
@@ -517,6 +526,11 @@ func c16Contiguous(c *Ctx) {
 			for _, phi := range txidVarPhis(fn, vFieldLoad("FileInfo.MaxTXID", item)) {
 				for i, e := range phi.Edges {
 					if _, isPhi := e.(*ssa.Phi); isPhi || !vFieldLoad("FileInfo.MaxTXID", item)(e) {
+						continue
+					}
+					// a read of the variable kept in a memory cell is not an assignment to it
+					// (the cell's stores are the sites, above)
+					if u, isU := e.(*ssa.UnOp); isU && u.Op == token.MUL && cellOf(u.X) != nil {
 						continue
 					}
 					n++
